@@ -36,6 +36,7 @@ class ConvRef(Monitor):
         self.entered_stalled = set()   # items that entered while the head was waiting at the exit
         self.any_entered_stalled = False
         self.between_slots = False     # a stall began while a follower was between two slot positions
+        self.not_touching = set()      # followers that were NOT touching the item ahead when a stall began
 
     # ---- reference dynamics
     def head_waiting(self):
@@ -104,10 +105,14 @@ class ConvRef(Monitor):
                 self.order.remove(n)
         hw = self.head_waiting()
         if hw and not getattr(self, "_hw_prev", False):
+            prev = self.order[0]
             for n in self.order[1:]:
                 fr = self.s[n] / self.tau
                 if abs(fr - round(fr)) > 1e-6:
                     self.between_slots = True
+                if abs((self.s[prev] - self.s[n]) - self.tau) > 1e-6:
+                    self.not_touching.add(n)
+                prev = n
         self._hw_prev = hw
         if not events_now(w.env):
             if self.last_end_t is None or t1 > self.last_end_t + EPS:
@@ -119,7 +124,7 @@ class ConvRef(Monitor):
 
     def ref_state(self, w):
         return (tuple((w.items[n].obj, round(self.s[n], 6), n in self.entered_stalled) for n in self.order), self.ever_stalled, self.between_slots,
-                self.any_entered_stalled, self.stalled_prev_end,
+                self.any_entered_stalled, tuple(w.items[n].obj for n in self.order if n in self.not_touching), self.stalled_prev_end,
                 self.stalled_now_end, self.same_instant_entries, self.offgrid)
 
     def facets(self, w, **kw):
@@ -206,7 +211,8 @@ class C13(ConvRef):
                                  % (w.now, x.obj, self.s[x.n], self.T, "at the exit" if ref else "still travelling",
                                     "offers" if real else "does not offer", [(n, round(self.s[n], 6)) for n in self.order]),
                                  **self.facets(w, early=real and not ref, entered_during_stall=x.n in self.entered_stalled,
-                                               between_slots=self.between_slots)))
+                                               between_slots=self.between_slots,
+                                               always_touching=not (self.not_touching & set(self.order)) and not self.entered_stalled)))
                     break
         return out
 
